@@ -111,6 +111,24 @@ def proxyWrite (s : ProxyState) (w : WriteCall) : ProxyState :=
 def proxyTerminate (C : PayloadCodec) (v : Version) (s : ProxyState) : Bytes :=
   s.sink ++ footerBytes C { version := v, crc := Crc32.finalize s.hasher }
 
+/-! ### `Index::validate_checksum`: walk the managed files of the committed segments -/
+
+/-- mirrors `Index::validate_checksum`: `active` = files listed by the committed segment metas,
+`managed` = `.managed.json`, `read p` = raw bytes of `p` (`none`: cannot be opened).
+Returns `none` when some file is unreadable (the `?` in the loop), else the damaged paths. -/
+def indexValidate (C : PayloadCodec) (active managed : List Nat) (read : Nat → Option Bytes) :
+    Option (List Nat) :=
+  let walk := active.filter (fun p => managed.contains p)
+  walk.foldr (fun p acc =>
+    match acc, read p with
+    | none, _ => none
+    | _, none => none
+    | some ds, some bytes =>
+      match validate C bytes with
+      | .intact => some ds
+      | .damaged => some (p :: ds)
+      | .unreadable _ => none) (some [])
+
 /-! ### concrete payload codec: canonical serde_json text of the fixed shape -/
 
 def asciiOfString (s : String) : Bytes := s.toList.map (fun c => UInt8.ofNat c.toNat)
